@@ -33,6 +33,11 @@ CLAIMED = {
     "C09": ("SMT (z3; exp/tan uninterpreted) over symbolic execution of the real CorrelationFunction constructor and "
             "addition code for every grouping of mixed analytic/value-defined components", "4/C09",
             "FFT-based component types and the measured-vs-declared reorganisation energy are outside the claim."),
+    "C10": ("SMT (z3 real arithmetic) over symbolic execution of the real vibronic Aggregate.build / fc_factor / "
+            "coupling / transition_dipole code with the Franck-Condon overlap matrix as an uninterpreted matrix per "
+            "shift difference; signature sets checked for completeness and uniqueness; set_HR/get_HR with a sqrt stub",
+            "4/C10", "The Poisson law and orthogonality of the overlaps (values of exp/eig of a 100-level matrix) "
+            "are not decided."),
     "C12": ("SMT (z3 polynomial real arithmetic) over symbolic execution of the real LabSetup / liouville_pathway "
             "orientational-averaging code: the three full contractions that fix an isotropic rank-4 average, the "
             "bilinear form, rotation invariance (plane rotations) and fourth-power scaling", "4/C12",
@@ -60,5 +65,5 @@ CLAIMED = {
 }
 _NYB = "check not built yet in this round (design in DESIGN.md section 4); not claimed until its harness is sound"
 NOT_APPLICABLE = {p: _NYB for p in
-                  ["C%02d" % i for i in range(2, 20) if i not in (2, 3, 4, 5, 6, 7, 8, 9, 12, 13, 14, 15, 16, 17, 19)]}
+                  ["C%02d" % i for i in range(2, 20) if i not in (2, 3, 4, 5, 6, 7, 8, 9, 10, 12, 13, 14, 15, 16, 17, 19)]}
 SOURCE_COMMITS = []
